@@ -34,6 +34,11 @@ CHECKS = {
          "Each program is generated, compiled and executed once untagged and then under 6-14 tag assignments; a variant must keep output names, declared shapes/dtypes and agree with the baseline to 8 ulp. Only variants whose kernel structure (temporaries, substitution rules, instructions, iname/argument tags, names) differs from the baseline count as non-trivial. Failing assignments are minimised and keyed by (tag kind @ node op).",
          "As C01. ImplementationStrategy tags are unique per array, so at most one strategy per node. Named collisions (ValueError) are legal outcomes.",
          "DESIGN.md §3 C07"),
+ "C15": ("exploration",
+         "adversarial-naming runtime monitor: names of the generated kernel (arguments, temporaries, inames, substitution rules, bound arguments) checked against user names fed back from a first code generation pass of the same program; execution with pairwise-distinct inputs exposes aliasing",
+         "For each program a first codegen pass collects every name the generator invents; user input names, output keys and Named/PrefixNamed tags are then drawn from those names, one-edit neighbours and near-reserved names (7 scenarios incl. reserved-pattern names, output key = input name, naming tags on wrapped data, two distinct same-named inputs). The kernel's name spaces must be disjoint, placeholders and outputs must appear under exactly their names, generated names must stay in _pt_ or derive from a naming tag, NameClashError must be raised for distinct same-named inputs, bound data must be the wrapped objects, and values must equal the default-named baseline/NumPy.",
+         "As C01 for execution. For user names that collide with each other or lie in reserved regions either an error or correct values is accepted.",
+         "DESIGN.md §3 C15"),
 }
 
 NOT_YET = {
